@@ -3,7 +3,10 @@
 package tres
 
 import (
+	"context"
+
 	"github.com/cosi-project/runtime/pkg/resource"
+	"github.com/cosi-project/runtime/pkg/state"
 	"github.com/cosi-project/runtime/pkg/resource/meta"
 	"github.com/cosi-project/runtime/pkg/resource/meta/spec"
 	"github.com/cosi-project/runtime/pkg/resource/typed"
@@ -67,3 +70,58 @@ func SpecOf(r resource.Resource) Spec {
 }
 
 var _ = meta.NamespaceType
+
+// NewAt creates a resource of an arbitrary (possibly symbolic) type.
+func NewAt(ns resource.Namespace, typ resource.Type, id resource.ID, s string) *A {
+	return typed.NewResource[Spec, extA](resource.NewMetadata(ns, typ, id, resource.VersionUndefined), Spec{S: s})
+}
+
+// Counting wraps a CoreState and counts/logs every call that reaches it.
+type Counting struct {
+	Inner state.CoreState
+	Calls int
+	Writes int
+}
+
+func (c *Counting) Get(ctx context.Context, p resource.Pointer, o ...state.GetOption) (resource.Resource, error) {
+	c.Calls++
+	return c.Inner.Get(ctx, p, o...)
+}
+
+func (c *Counting) List(ctx context.Context, k resource.Kind, o ...state.ListOption) (resource.List, error) {
+	c.Calls++
+	return c.Inner.List(ctx, k, o...)
+}
+
+func (c *Counting) Create(ctx context.Context, r resource.Resource, o ...state.CreateOption) error {
+	c.Calls++
+	c.Writes++
+	return c.Inner.Create(ctx, r, o...)
+}
+
+func (c *Counting) Update(ctx context.Context, r resource.Resource, o ...state.UpdateOption) error {
+	c.Calls++
+	c.Writes++
+	return c.Inner.Update(ctx, r, o...)
+}
+
+func (c *Counting) Destroy(ctx context.Context, p resource.Pointer, o ...state.DestroyOption) error {
+	c.Calls++
+	c.Writes++
+	return c.Inner.Destroy(ctx, p, o...)
+}
+
+func (c *Counting) Watch(ctx context.Context, p resource.Pointer, ch chan<- state.Event, o ...state.WatchOption) error {
+	c.Calls++
+	return c.Inner.Watch(ctx, p, ch, o...)
+}
+
+func (c *Counting) WatchKind(ctx context.Context, k resource.Kind, ch chan<- state.Event, o ...state.WatchKindOption) error {
+	c.Calls++
+	return c.Inner.WatchKind(ctx, k, ch, o...)
+}
+
+func (c *Counting) WatchKindAggregated(ctx context.Context, k resource.Kind, ch chan<- []state.Event, o ...state.WatchKindOption) error {
+	c.Calls++
+	return c.Inner.WatchKindAggregated(ctx, k, ch, o...)
+}
